@@ -35,8 +35,9 @@ RULE = ('each run = 2-6 HTLC/PTLC outputs created on the sender clock and 15-40 
 REQUIRED_PROBES = ['refund_at_deadline', 'refund_deadline_minus_1', 'claim_after_deadline',
                    'refund_future_eq_thr', 'outsider_with_revealed_preimage', 'tweak_used',
                    'digest_param', 'hash_size_1', 'hash_size_16', 'hash_size_20',
-                   'hash_size_32', 'hash_size_64', 'step_between_reads', 'corrupt_sig', 'corrupt_preimage', 'corrupt_pubkey',
-                   'corrupt_selector']
+                   'hash_size_32', 'hash_size_64', 'step_between_reads', 'corrupt_sig',
+                   'corrupt_preimage', 'corrupt_pubkey', 'corrupt_selector', 'threshold_per_call',
+                   'default_timestamp', 'crafted_witness']
 
 LKINDS = ['htlc_sha', 'htlc_shake', 'htlc2_sha', 'htlc2_shake', 'ptlc', 'ptlc_tweak']
 WKINDS = ['htlc', 'htlc2', 'ptlc', 'ptlc_refund']
@@ -138,6 +139,9 @@ def gen_step(rng, cell, oid, out, clocks, vname, thr, fault_free):
             step['faults'].append({'at_read': 0, 'kind': 'freeze'})
         if rng.chance(1, 6):
             step['corrupt'] = {'item': rng.below(3), 'bit': rng.below(520)}
+        elif rng.chance(1, 7):
+            # a witness the attacker composes himself from observed material
+            step['crafted'] = [rng.below(64) for _ in range(rng.rng(1, 4))]
     return step
 
 
@@ -234,6 +238,18 @@ def build_witness(step, out, keys, preimage):
         tw = bytes.fromhex(out['tweak']) if 'tweak' in out and step['actor'] == 'R' else None
         return T.make_ptlc_witness(seed, sf, tw, step['flag'], pfx)
     return T.make_ptlc_refund_witness(seed, sf, step['flag'], pfx)
+
+
+def sf_for(out):
+    return {k: bytes.fromhex(v) for k, v in out['sigfields'].items()}
+
+
+def push_bytes_script(items):
+    """push-only witness for arbitrary items (OP_PUSH1 handles the empty item)"""
+    code = b''
+    for it in items:
+        code += bytes([F.opcodes_inverse['OP_PUSH1'][0], len(it)]) + it
+    return T.Script('# crafted witness #', code)
 
 
 def items_of(script):
@@ -357,7 +373,20 @@ def execute(plan, run):
         items = real('run_script(witness)', items_of, w)
         cor = step.get('corrupt')
         corrupted = None
-        if cor:
+        if step.get('crafted') and not cor:
+            pool = list(items)
+            for a in ('R', 'S', 'O'):
+                sw = T.make_single_sig_witness(keys[a][0], sf_for(out), step['flag'])
+                pool.append(items_of(sw)[0])
+                pool.append(keys[a][1])
+            pool += [pre, bytes([pre[0] ^ 1]) + pre[1:], b'\xff', b'\x00', b'', b'j' * 32, b'k' * 64]
+            items = [pool[q % len(pool)] for q in step['crafted']]
+            w = push_bytes_script(items)
+            cor = {'crafted': True}
+            corrupted = 'crafted'
+            run.probe('crafted_witness')
+            run.fault('crafted_witness')
+        elif cor:
             j = cor['item'] % len(items)
             it = bytearray(items[j])
             bit = cor['bit'] % (len(it) * 8)
